@@ -32,11 +32,12 @@ TOK = re.compile(r"""
     (?P<ws>\s+)
   | (?P<lc>//[^\n]*)
   | (?P<bc>/\*.*?\*/)
-  | (?P<num>\d[\d_]*(?:[iu](?:8|16|32|64|128|size))?)
+  | (?P<num>0x[0-9a-fA-F_]+|\d[\d_]*(?:[iu](?:8|16|32|64|128|size))?)
   | (?P<life>'[a-zA-Z_]\w*)
+  | (?P<bstr>b"(?:[^"\\]|\\.)*")
   | (?P<id>[A-Za-z_]\w*)
   | (?P<str>"(?:[^"\\]|\\.)*")
-  | (?P<op>>>=|<<=|\.\.=|->|=>|==|!=|<=|>=|&&|\|\||::|\+=|-=|\*=|/=|>>|<<|\.\.|[-+*/%&|^!<>=.,;:(){}\[\]#?@])
+  | (?P<op>>>=|<<=|\.\.=|->|=>|==|!=|<=|>=|&&|\|\||::|\+=|-=|\*=|/=|\|=|&=|\^=|%=|>>|<<|\.\.|[-+*/%&|^!<>=.,;:(){}\[\]#?@])
 """, re.X | re.S)
 
 
@@ -179,6 +180,12 @@ class Parser:
             if self.peek()[0] == "life":
                 self.i += 1
             self.opt("mut")
+        if self.opt("["):
+            inner = self.type_()
+            if self.opt(";"):
+                self.expr()
+            self.eat("]")
+            return f"slice<{inner}>"
         name = self.ident()
         while self.opt("::"):
             name = self.ident()
@@ -209,6 +216,9 @@ class Parser:
                 params.append(("self", "Self", mut))
             else:
                 self.eat(":")
+                # `name: &mut T` is a mutable OUT parameter
+                if self.at("&") and self.peek(1)[1] == "mut":
+                    mut = True
                 params.append((pname, self.type_(), mut))
             if not self.opt(","):
                 break
@@ -242,7 +252,7 @@ class Parser:
                 stmts.append(("while", c, b))
                 continue
             e = self.expr()
-            if self.at("=") or self.peek()[1] in ("+=", "-=", "*=", "/=", ">>=", "<<="):
+            if self.at("=") or self.peek()[1] in ("+=", "-=", "*=", "/=", ">>=", "<<=", "|=", "&=", "^=", "%="):
                 op = self.peek()[1]
                 self.i += 1
                 r = self.expr()
@@ -337,6 +347,11 @@ class Parser:
                         e = ("field", e, name)
             elif self.at("("):
                 e = ("call", e, self.args())
+            elif self.at("["):
+                self.i += 1
+                ix = self.expr()
+                self.eat("]")
+                e = ("index", e, ix)
             else:
                 return e
 
@@ -344,8 +359,13 @@ class Parser:
         k, v = self.peek()
         if k == "num":
             self.i += 1
+            if v.startswith("0x"):
+                return ("num", int(v[2:].replace("_", ""), 16), None)
             m = re.match(r"(\d[\d_]*?)_?((?:[iu](?:8|16|32|64|128|size))?)$", v)
             return ("num", int(m.group(1).replace("_", "")), m.group(2) or None)
+        if k == "bstr":
+            self.i += 1
+            return ("bytes", [ord(c) for c in bytes(v[2:-1], "utf-8").decode("unicode_escape")])
         if v == "(":
             self.i += 1
             e = self.expr()
@@ -925,6 +945,247 @@ def translate(repo):
     return "\n".join(out) + "\n"
 
 
+
+# ------------------------------------------------------------------ imperative functions (loops, mutable locals)
+class ImpGen:
+    """Translation of a function with `let mut`, assignments, `while`, indexed reads / writes of slices.
+    Numbers are `Nat` (u8 / usize / u32), slices are `List Nat`.  Mutable variables are renamed at every
+    assignment (SSA); an `if` without `else` and a `while` continue with the variables of whichever branch ran
+    (the continuation is generated for both).  A `while` becomes an auxiliary definition that recurses on an
+    explicit `fuel` argument (out of fuel = panic; the theorems choose enough fuel).  Result of the function =
+    the final values of its `&mut` parameters."""
+
+    NAT_BIN = {"+": "+", "*": "*", "/": "/", "%": "%", "<<": "<<<", ">>": ">>>", "|": "|||", "&": "&&&", "^": "^^^"}
+
+    def __init__(self, consts):
+        self.consts = consts   # name -> lean list literal / number
+        self.n = 0
+        self.aux = []
+
+    def fresh(self, base):
+        self.n += 1
+        return f"{base}_{self.n}"
+
+    def strip(self, e):
+        while e[0] in ("ref", "deref", "paren"):
+            e = e[1]
+        if e[0] == "cast" and e[2] in ("usize", "u32", "u64", "u8"):
+            return self.strip(e[1])
+        return e
+
+    # expressions -> CPS: k(atom)
+    def ex(self, e, env, k):
+        e = self.strip(e)
+        t = e[0]
+        if t == "num":
+            return k(f"({e[1]} : Nat)")
+        if t == "var":
+            if e[1] in env:
+                return k(env[e[1]])
+            if e[1] in self.consts:
+                return k(self.consts[e[1]])
+            raise Unsupported(f"unknown variable {e[1]}")
+        if t == "mcall" and e[2] == "len" and not e[3]:
+            return self.ex(e[1], env, lambda a: k(f"(List.length {a})"))
+        if t == "index":
+            def ka(a):
+                def ki(i):
+                    v = self.fresh("t")
+                    return f"(Comp.bind (idx {a} {i}) fun {v} =>\n {k(v)})"
+                return self.ex(e[2], env, ki)
+            return self.ex(e[1], env, ka)
+        if t == "bin" and e[1] in self.NAT_BIN:
+            return self.ex(e[2], env, lambda a: self.ex(e[3], env, lambda b: k(f"({a} {self.NAT_BIN[e[1]]} {b})")))
+        if t == "bin" and e[1] == "-":
+            def ka(a):
+                def kb(b):
+                    v = self.fresh("t")
+                    return f"(Comp.bind (usize_sub {a} {b}) fun {v} =>\n {k(v)})"
+                return self.ex(e[3], env, kb)
+            return self.ex(e[2], env, ka)
+        raise Unsupported(f"imperative expression {t} {e[1] if len(e) > 1 and isinstance(e[1], str) else ''}")
+
+    def cond(self, c, env, kt, kf):
+        c = self.strip(c)
+        if c[0] == "bin" and c[1] in ("==", "!=", "<", ">", "<=", ">="):
+            op = {"==": "=", "!=": "≠", "<": "<", ">": ">", "<=": "≤", ">=": "≥"}[c[1]]
+            return self.ex(c[2], env, lambda a: self.ex(c[3], env, lambda b: f"(if ({a} {op} {b}) then\n {kt()}\n else\n {kf()})"))
+        if c[0] == "bin" and c[1] == "&&":
+            return self.cond(c[2], env, lambda: self.cond(c[3], env, kt, kf), kf)
+        if c[0] == "bin" and c[1] == "||":
+            return self.cond(c[2], env, kt, lambda: self.cond(c[3], env, kt, kf))
+        raise Unsupported(f"imperative condition {c[0]}")
+
+    def assigned(self, stmts, acc):
+        for s in stmts:
+            if s[0] == "assign":
+                lhs = self.strip(s[1])
+                if lhs[0] == "var":
+                    acc.add(lhs[1])
+                elif lhs[0] == "index" and self.strip(lhs[1])[0] == "var":
+                    acc.add(self.strip(lhs[1])[1])
+            elif s[0] == "while":
+                self.assigned(s[2][1], acc)
+            elif s[0] == "expr" and self.strip(s[1])[0] == "if":
+                e = self.strip(s[1])
+                self.assigned(e[2][1], acc)
+                if e[3] is not None and e[3][0] == "block":
+                    self.assigned(e[3][1], acc)
+        return acc
+
+    def stmts(self, ss, env, k_end, k_ret):
+        """k_end(env): continuation after the last statement; k_ret(env): a `return;`"""
+        if not ss:
+            return k_end(env)
+        s, rest = ss[0], ss[1:]
+        cont = lambda env2: self.stmts(rest, env2, k_end, k_ret)
+        if s[0] == "let":
+            return self.ex(s[3], env, lambda a: cont(dict(env, **{s[1]: a})))
+        if s[0] == "assign":
+            lhs, op, rhs = self.strip(s[1]), s[2], s[3]
+            if lhs[0] == "var":
+                if op == "=":
+                    val = rhs
+                else:
+                    val = ("bin", op[:-1], s[1], rhs)
+                name = lhs[1]
+                def kv(a):
+                    # bind to a fresh Lean variable so that later code mentions a name, not a big term
+                    v = self.fresh(name)
+                    return f"(Comp.bind (Comp.ok {a}) fun {v} =>\n {cont(dict(env, **{name: v}))})"
+                return self.ex(val, env, kv)
+            if lhs[0] == "index" and op == "=":
+                arr = self.strip(lhs[1])
+                if arr[0] != "var":
+                    raise Unsupported("indexed assignment to a non-variable")
+                name = arr[1]
+                def ki(i):
+                    def kv(a):
+                        v = self.fresh(name)
+                        return f"(Comp.bind (setIdx {env[name]} {i} {a}) fun {v} =>\n {cont(dict(env, **{name: v}))})"
+                    return self.ex(rhs, env, kv)
+                return self.ex(lhs[2], env, ki)
+            raise Unsupported("assignment form")
+        if s[0] == "expr":
+            e = self.strip(s[1])
+            if e[0] == "return":
+                if e[1] is not None:
+                    raise Unsupported("return with a value in an imperative function")
+                return k_ret(env)
+            if e[0] == "if":
+                tb = e[2]
+                if tb[2] is not None:
+                    raise Unsupported("if-statement with a value")
+                then_code = lambda: self.stmts(tb[1], env, cont, k_ret)
+                if e[3] is None:
+                    else_code = lambda: cont(env)
+                else:
+                    eb = e[3]
+                    if eb[0] != "block" or eb[2] is not None:
+                        raise Unsupported("else branch form")
+                    else_code = lambda: self.stmts(eb[1], env, cont, k_ret)
+                return self.cond(e[1], env, then_code, else_code)
+            raise Unsupported(f"imperative expression statement {e[0]}")
+        if s[0] == "while":
+            body = s[2]
+            if body[2] is not None:
+                raise Unsupported("while body with a value")
+            muts = sorted(self.assigned(body[1], set()))
+            for m in muts:
+                if m not in env:
+                    raise Unsupported(f"loop assigns unknown variable {m}")
+            others = [v for v in sorted(env) if v not in muts]
+            name = f"{self.fname}.loop{len(self.aux) + 1}"
+            params = muts + others
+            penv = {v: v + "_" for v in params}
+            plist = " ".join(f"({penv[v]} : {self.types[v]})" for v in params)
+            rty = " × ".join(self.types[m] for m in muts)
+            tup = lambda en: "(" + ", ".join(en[m] for m in muts) + ")"
+            def again(en):
+                return f"{name} fuel {' '.join(en[v] for v in params)}"
+            def nested_return(en):
+                raise Unsupported("return inside a loop")
+            body_code = self.cond(s[1], penv,
+                                  lambda: self.stmts(body[1], penv, again, nested_return),
+                                  lambda: f"Comp.ok {tup(penv)}")
+            self.aux.append(f"def {name} (fuel : Nat) {plist} : Comp ({rty}) :=\n match fuel with\n | 0 => Comp.panic\n | fuel + 1 =>\n {body_code}\n")
+            r = self.fresh("r")
+            env2 = dict(env)
+            if len(muts) == 1:
+                env2[muts[0]] = r
+            else:
+                for j, m in enumerate(muts):
+                    env2[m] = f"{r}" + "".join(".2" for _ in range(j)) + (".1" if j < len(muts) - 1 else "")
+            return f"(Comp.bind ({name} fuel {' '.join(env[v] for v in params)}) fun {r} =>\n {cont(env2)})"
+        raise Unsupported(f"imperative statement {s[0]}")
+
+    def function(self, ns, f):
+        _, name, params, ret, body, impl_of = f
+        if ret != "()":
+            raise Unsupported("imperative function with a return value")
+        self.fname = f"{ns}.{name}"
+        self.types, env, outs, lparams = {}, {}, [], []
+        for pn, pt, mut in params:
+            if pt == "Env":
+                continue
+            ty = "List Nat" if pt.startswith("slice<") else "Nat"
+            self.types[pn] = ty
+            env[pn] = pn
+            lparams.append(f"({pn} : {ty})")
+            if mut:
+                outs.append(pn)
+        if body[2] is not None:
+            if self.strip(body[2])[0] != "if":
+                raise Unsupported("imperative function with a tail value")
+            body = ("block", body[1] + [("expr", body[2])], None)
+        # types of locals: `let mut x: usize = …` / `let x = …` are numbers
+        def decl(ss):
+            for s in ss:
+                if s[0] == "let":
+                    self.types[s[1]] = "Nat"
+                elif s[0] == "while":
+                    decl(s[2][1])
+                elif s[0] == "expr" and self.strip(s[1])[0] == "if":
+                    e = self.strip(s[1])
+                    decl(e[2][1])
+        decl(body[1])
+        out = lambda en: "Comp.ok " + ("(" + ", ".join(en[o] for o in outs) + ")" if len(outs) != 1 else en[outs[0]])
+        code = self.stmts(body[1], env, out, out)
+        rty = " × ".join(self.types[o] for o in outs) if outs else "Unit"
+        main = f"def {ns}.{name} (fuel : Nat) {' '.join(lparams)} : Comp ({rty}) :=\n {code}\n"
+        return "\n".join(self.aux) + "\n" + main
+
+
+IMP_FILES = [
+    ("B64", "packages/accounts/src/verifiers/utils/base64_url.rs", ["base64_url_encode"], "lean/OZ/Gen/Base64.lean"),
+]
+
+
+def translate_imp(repo, ns, rel, only):
+    out = ["-- GENERATED by /verif/tools/rs2lean.py from /repo's current sources. DO NOT EDIT.",
+           "import OZ.Model.RustSem", "set_option linter.unusedVariables false", "namespace OZ.Gen", "open OZ.Rs", "",
+           f"/-! ## {rel} -/"]
+    items = Parser(tokenize(open(os.path.join(repo, rel)).read())).items()
+    consts = {}
+    for it in items:
+        if it[0] == "const":
+            e = it[3]
+            while e[0] in ("ref", "paren"):
+                e = e[1]
+            if e[0] == "bytes":
+                out.append(f"def {ns}.{it[1]} : List Nat := [{', '.join(str(b) for b in e[1])}]\n")
+                consts[it[1]] = f"{ns}.{it[1]}"
+            elif e[0] == "num":
+                consts[it[1]] = f"({e[1]} : Nat)"
+            else:
+                raise Unsupported(f"constant {it[1]}")
+    for it in items:
+        if it[0] == "fn" and it[1] in only:
+            out.append(ImpGen(consts).function(ns, it))
+    out.append("end OZ.Gen")
+    return "\n".join(out) + "\n"
+
+
 def main():
     repo, outp = "/repo", None
     a = sys.argv[1:]
@@ -933,8 +1194,29 @@ def main():
             repo = a[1]; a = a[2:]
         elif a[0] == "--out":
             outp = a[1]; a = a[2:]
+        elif a[0] == "--write":
+            outp = "-"; a = a[1:]
         else:
             a = a[1:]
+    if "--imp" in sys.argv:
+        # the imperative files: one output each
+        rc = 0
+        for ns, rel, only, dst in IMP_FILES:
+            try:
+                txt = translate_imp(repo, ns, rel, only)
+            except Unsupported as ex:
+                print(f"rs2lean: unsupported ({rel}): {ex}", file=sys.stderr)
+                sys.exit(3)
+            if outp:
+                path = os.path.join(os.path.dirname(os.path.abspath(__file__)), "..", dst)
+                old = open(path).read() if os.path.exists(path) else None
+                if old != txt:
+                    os.makedirs(os.path.dirname(path), exist_ok=True)
+                    open(path, "w").write(txt)
+                print("rs2lean: ok" + (" (unchanged)" if old == txt else " (regenerated)"))
+            else:
+                sys.stdout.write(txt)
+        sys.exit(rc)
     try:
         txt = translate(repo)
     except Unsupported as ex:
